@@ -782,6 +782,7 @@ type guardSpec struct {
 var guardTable = []guardSpec{
 	{"client", "database", "deferUpdates", "cacheMutex", "", false},
 	{"client", "database", "deferredUpdates", "cacheMutex", "", false},
+	{"client", "database", "api", "cacheMutex", "", false},
 	{"client", "database", "monitors", "monitorsMutex", "", false},
 	{"client", "database", "model", "modelMutex", "", false},
 	{"client", "database", "lastTransactionIDs", "lastTransactionIDsMutex", "", true},
